@@ -52,7 +52,30 @@ pub fn cases(rng: &mut Rng, count: usize, tier: &str) -> Vec<Case> {
             o.min_terms = 5;
         }
         let mut tags = vec![];
-        let (w, f) = world::gen_world_sub_p(rng, o, &mut tags, if o.dense { 2 } else { 4 });
+        if rng.chance(1, 16) {
+            // one long chain (33-70 terms), supplied in random order
+            o.deep = true;
+            o.dense = false;
+            o.min_terms = 36;
+            o.max_terms = if tier == "thorough" { 90 } else { 60 };
+            o.max_records = 1;
+            tags.push("deep_chain");
+        }
+        let (mut w, f) = world::gen_world_sub_p(rng, o, &mut tags, if o.dense { 2 } else { 4 });
+        if o.deep {
+            // supply the terms descendants-first (or ancestors-first): the cache recursion climbs the whole chain
+            let inner = match &mut w {
+                World::Sub(b, _, _) => &mut **b,
+                other => other,
+            };
+            if let World::Builder(s) = inner {
+                let depth_of: std::collections::BTreeMap<u32, usize> = f.terms.iter().map(|t| (t.id, f.ancestors(t.id).len())).collect();
+                s.terms.sort_by_key(|t| depth_of.get(&t.0).copied().unwrap_or(0));
+                if rng.chance(2, 3) {
+                    s.terms.reverse();
+                }
+            }
+        }
         let b = w.build();
         let obs = world::on_onto(&b, obs_c01);
         tags.extend(tags_for(&f));
